@@ -49,7 +49,18 @@ func instrumentCImpl(fset *token.FileSet, f *ast.File, rel string) error {
 	if err := ci.verify(f); err != nil {
 		return err
 	}
-	addImport(f, shimBase+"vsched", "vsched")
+	uses := false
+	ast.Inspect(f, func(n ast.Node) bool {
+		if se, ok := n.(*ast.SelectorExpr); ok {
+			if id, ok := se.X.(*ast.Ident); ok && id.Name == "vsched" {
+				uses = true
+			}
+		}
+		return !uses
+	})
+	if uses {
+		addImport(f, shimBase+"vsched", "vsched")
+	}
 	return nil
 }
 
@@ -266,6 +277,9 @@ func header(st ast.Stmt) []ast.Node {
 		}
 		add(x.Assign)
 	case *ast.SelectStmt, *ast.BlockStmt:
+	case *ast.CaseClause, *ast.CommClause:
+		// the clauses of a switch / select body are not statements one can put something in front of; their own bodies
+		// are statement lists and are handled as such
 	case *ast.LabeledStmt:
 		return header(x.Stmt)
 	default:
@@ -407,7 +421,39 @@ func (ci *cinst) goStmt(g *ast.GoStmt) ast.Stmt {
 	return &ast.BlockStmt{List: []ast.Stmt{&ast.AssignStmt{Lhs: lhs, Tok: token.DEFINE, Rhs: rhs}, spawn}}
 }
 
+// prioritise: when several communications of a select are ready Go picks one pseudo-randomly - a source of
+// nondeterminism the explorer does not own (replays would diverge). The select (which has a default clause by now) is
+// nested so that the first ready case IN SOURCE ORDER is taken. This restricts the behaviours explored (DESIGN §16).
+func (ci *cinst) prioritise(s *ast.SelectStmt) {
+	var comms []*ast.CommClause
+	var def *ast.CommClause
+	for _, c := range s.Body.List {
+		cc := c.(*ast.CommClause)
+		if cc.Comm == nil {
+			def = cc
+		} else {
+			comms = append(comms, cc)
+		}
+	}
+	if len(comms) < 2 || def == nil {
+		return
+	}
+	inner := &ast.SelectStmt{Body: &ast.BlockStmt{List: []ast.Stmt{comms[len(comms)-1], def}}}
+	ci.gen[inner] = true
+	for i := len(comms) - 2; i >= 1; i-- {
+		inner = &ast.SelectStmt{Body: &ast.BlockStmt{List: []ast.Stmt{comms[i], &ast.CommClause{Body: []ast.Stmt{inner}}}}}
+		ci.gen[inner] = true
+	}
+	s.Body.List = []ast.Stmt{comms[0], &ast.CommClause{Body: []ast.Stmt{inner}}}
+}
+
 func (ci *cinst) selectStmt(s *ast.SelectStmt) ast.Stmt {
+	out := ci.selectStmt0(s)
+	ci.prioritise(s)
+	return out
+}
+
+func (ci *cinst) selectStmt0(s *ast.SelectStmt) ast.Stmt {
 	if hasDefault(s) {
 		return s
 	}
